@@ -800,6 +800,27 @@ func c01Absent(cs *h.Case, rootNode generic.Node, rootVal generic.Value, pn gene
 				mustNotFound("Node.GetByPath", rootNode.GetByPath(with(generic.NewPathIntKey(int(k)))...))
 				mustNotFound("Value.GetByPath", rootVal.GetByPath(with(generic.NewPathIntKey(int(k)))...).Node)
 			}
+			// keys outside the range of the key type are absent too: k + 2^width of a present key k must not alias it
+			if n.m.KT != tref.I64 {
+				width := map[byte]uint{tref.BYTE: 8, tref.I16: 16, tref.I32: 32}[n.m.KT]
+				for i, k := range n.m.K {
+					if i >= 2 {
+						break
+					}
+					for _, far := range []int64{k.I + 1<<width, k.I - 1<<width, k.I + 3<<width} {
+						for api, x := range map[string]generic.Node{
+							"Node.GetByInt":   pn.GetByInt(int(far)),
+							"Node.GetByPath":  rootNode.GetByPath(with(generic.NewPathIntKey(int(far)))...),
+							"Value.GetByPath": rootVal.GetByPath(with(generic.NewPathIntKey(int(far)))...).Node,
+						} {
+							if !x.IsError() {
+								cs.Viol("read:"+api+":found-absent:out-of-range-int-key", "key", far, "aliases", k.I, "key-type", tref.TypeName(n.m.KT))
+							}
+						}
+						cs.Cover("out_of_range_int_key_lookups")
+					}
+				}
+			}
 		default:
 			// an absent raw key of the right type
 			var k *tref.Val
